@@ -63,9 +63,19 @@ def main():
 
         return ws_commands.run_c16(a.tier, a.replay)
     if a.prop == "C10":
-        from . import checks_jobdir
+        from . import checks_jobdir, checks_sched
+        import json
 
-        return checks_jobdir.run(a.prop, a.tier, a.replay)
+        kind = None
+        if a.replay:
+            kind = "sched" if "plan" in json.load(open(a.replay))["payload"] else "jobdir"
+        rep = None
+        if kind in (None, "sched"):
+            # the scheduler's half of the protocol (lock held over spawn and pid file, what it leaves when a start fails)
+            rep = checks_sched.run(a.prop, a.tier, a.replay, finish=False)
+            if isinstance(rep, int):
+                return rep
+        return checks_jobdir.run(a.prop, a.tier, a.replay, rep=rep)
     if a.prop in ("C05", "C11"):
         from . import checks_jobdir, checks_sched
         import json
